@@ -35,6 +35,10 @@ type Call struct {
 	Shape    int    `json:"shape"` // reply element spelling, see buildPayload
 	Body     string `json:"body"`  // ok | data | error
 	Fill     string `json:"fill,omitempty"`
+	// Collide: the body carries an element whose name collides with a token the library scans the
+	// stream for (hello, capability, session-id, subscription-id, subscription-result, rpc-error-count,
+	// ok); the element itself is part of Fill.
+	Collide string `json:"collide,omitempty"`
 	// Decoy: the filler quotes a message-id="N" attribute as text (N a past id, the next id, a far id)
 	Decoy string `json:"decoy,omitempty"`
 	// big fillers are given by length and seed instead of verbatim
@@ -209,6 +213,21 @@ func genCuts(r *rand.Rand, p []byte, kind string) []int {
 	return cuts
 }
 
+// collisions: element names/texts in reply DATA that collide with tokens the library looks for in the
+// stream. (Kept out on purpose: "</rpc>", "]]>]]>", lines starting with "##".)
+var collisions = []struct{ kind, xml string }{
+	{"hello", `<hello>10</hello>`},
+	{"hello-caps", `<hello xmlns="urn:verif:greeting"><capabilities><capability>urn:verif:cap:1.0</capability></capabilities></hello>`},
+	{"capability", `<capability>urn:ietf:params:netconf:base:1.1</capability>`},
+	{"session-id", `<session-id>7</session-id>`},
+	{"subscription-id", `<subscription-id>5</subscription-id>`},
+	{"subscription-id-ns", `<subscription-id xmlns="urn:verif:sub">%d</subscription-id>`},
+	{"subscription-result", `<subscription-result>x</subscription-result>`},
+	{"subscription-both", `<subscription-result>notif-bis:ok</subscription-result><subscription-id>6</subscription-id>`},
+	{"rpc-error-count", `<rpc-error-count>3</rpc-error-count>`},
+	{"ok-in-data", `<ok/>`},
+}
+
 var stores = []string{"running", "candidate", "startup"}
 
 func genRequest(r *rand.Rand, c *Call, big bool) {
@@ -291,14 +310,14 @@ func GenSession(r *rand.Rand, idx int) Session {
 	} else {
 		s.Seg.Delay = []string{"", "gosched"}[r.Intn(2)]
 	}
-	if s.Echo && r.Intn(2) == 0 {
+	if s.Echo && (idx/4)%2 == 0 { // a fixed half of the echoing sessions
 		s.NoEchoMark = true
 		if s.Profile != "long" && s.ReadDelayMs == 0 && r.Intn(4) != 0 {
 			// large reads, so that echo tail and reply really share a read
 			s.Seg.Mode, s.Seg.Size = []string{"whole", "fixed", "mix", "mix"}[r.Intn(4)], []int{4096, 4096, 100, 4096}[r.Intn(4)]
 		}
 	}
-	if s.NoEchoMark && r.Intn(3) != 0 {
+	if s.NoEchoMark && (idx/8)%3 != 0 { // a fixed two thirds of those
 		s.HoldHelloTail = 1 + r.Intn(8)
 	}
 	maxFill := 600
@@ -408,6 +427,25 @@ func GenSession(r *rand.Rand, idx int) Session {
 			c.Fill += fmt.Sprintf(` logged: <rpc-reply message-id="%d"/> `, n)
 			if r.Intn(2) == 0 {
 				c.Fill = fmt.Sprintf(`message-id="%d"`, n) + c.Fill
+			}
+		}
+		if !big && c.Plan != "local" && (idx*7+k)%5 == 1 {
+			// a fixed share of the replies, whatever the PRNG says
+			col := collisions[r.Intn(len(collisions))]
+			c.Collide = col.kind
+			c.Body = "data"
+			x := col.xml
+			if strings.Contains(x, "%d") {
+				x = fmt.Sprintf(x, 1+r.Intn(300))
+			}
+			switch r.Intn(3) {
+			case 0:
+				c.Fill = x + c.Fill
+			case 1:
+				c.Fill += x
+			default:
+				h := len(c.Fill) / 2
+				c.Fill = c.Fill[:h] + x + c.Fill[h:]
 			}
 		}
 		if c.Plan == "late" {
